@@ -838,10 +838,16 @@ func (r Stack) Reset() {
 reset is a private method called by [Stack.Reset].
 */
 func (r *stack) reset() {
-	var ct int = 0
-	for i := r.ulen(); i > 0; i-- {
-		ct++
-		r.remove(i - 1)
+	r.lock()
+	defer r.unlock()
+
+	// drop every user slice (nil ones included),
+	// keeping only the configuration slice.
+	if r.len() > 1 {
+		for i := 1; i < r.len(); i++ {
+			(*r)[i] = nil
+		}
+		*r = (*r)[:1]
 	}
 }
 
